@@ -170,7 +170,8 @@ def run_c06(ctx):
             # 'version' of the function so that every point conflicts
             m.NAME = "crp2"
             m.location = os.path.join(m.root, ".xyz-crp2")
-            if role == "harvester" and t.flag(1, 2, "second-crop-conflicts"):
+            # (bool results of two versions can coincide, so a conflict is not certain)
+            if role == "harvester" and kind != "bool" and t.flag(1, 2, "second-crop-conflicts"):
                 fspec.resources["v"] = 1
                 if twin["f"] is not None:
                     twin["f"].runner.resources = dict(fspec.resources)
